@@ -210,11 +210,14 @@ func multi(r *ev.Run) {
 			nvec *= len(outcomes)
 		}
 		for vec := 0; vec < nvec; vec++ {
-			for _, combine := range []bool{false, true} {
-				if combine && vec%7 != 0 { // CombineWriteSyncers = Lock(multi): sampled
+			for _, shape := range []string{"flat", "combine", "nested-first", "nested-last", "nested-middle"} {
+				if shape != "flat" && vec%7 != 0 { // other constructions of the same sink list: sampled
 					continue
 				}
-				id := fmt.Sprintf("c13/multi/%d/%d/%v", k, vec, combine)
+				if shape == "nested-middle" && k < 4 {
+					continue
+				}
+				id := fmt.Sprintf("c13/multi/%d/%d/%s", k, vec, shape)
 				if !r.Want(id) {
 					continue
 				}
@@ -245,11 +248,22 @@ func multi(r *ev.Run) {
 					}
 				}
 				var m zapcore.WriteSyncer
-				if combine {
+				switch shape {
+				case "combine":
 					m = zap.CombineWriteSyncers(ws...)
-				} else {
+				case "nested-first": // a multi-syncer as a member of another one, in first position
+					m = zapcore.NewMultiWriteSyncer(append([]zapcore.WriteSyncer{zapcore.NewMultiWriteSyncer(ws[0], ws[1])}, ws[2:]...)...)
+				case "nested-last":
+					m = zapcore.NewMultiWriteSyncer(append(append([]zapcore.WriteSyncer{}, ws[:k-2]...), zapcore.NewMultiWriteSyncer(ws[k-2], ws[k-1]))...)
+				case "nested-middle":
+					m = zapcore.NewMultiWriteSyncer(ws[0], zapcore.NewMultiWriteSyncer(ws[1], ws[2]), ws[3])
+					if k > 4 {
+						m = zapcore.NewMultiWriteSyncer(m, ws[4])
+					}
+				default:
 					m = zapcore.NewMultiWriteSyncer(ws...)
 				}
+				r.SetAdd("multi_syncer_constructions", shape)
 				n, err := m.Write(payload)
 				serr := m.Sync()
 				total++
@@ -257,12 +271,12 @@ func multi(r *ev.Run) {
 				if total%500 == 1 {
 					r.Sample(map[string]any{"multi_syncer_outcomes": names, "payload_len": len(payload), "returned_n": n, "returned_err": fmt.Sprint(err), "sync_err": fmt.Sprint(serr)})
 				}
-				r.Distinct(fmt.Sprintf("m|%d|%d", k, vec))
+				r.Distinct(fmt.Sprintf("m|%d|%d|%s", k, vec, shape))
 				r.SetAdd("min_position", fmt.Sprintf("k=%d,min@%d", k, minPos))
 				if minPos != 0 {
 					r.Count("vectors_first_sink_not_minimum", 1)
 				}
-				wit := map[string]any{"sinks": names, "payload_len": len(payload), "returned_n": n, "returned_err": fmt.Sprint(err), "combine": combine}
+				wit := map[string]any{"sinks": names, "payload_len": len(payload), "returned_n": n, "returned_err": fmt.Sprint(err), "construction": shape}
 				bad := func(class, f string, a ...any) {
 					r.Violate(ev.Violation{Case: id, Class: class, Msg: fmt.Sprintf("multi-syncer %v: ", names) + fmt.Sprintf(f, a...), Witness: wit})
 				}
@@ -398,6 +412,13 @@ func (s *exclSink) enter() {
 func (s *exclSink) Write(p []byte) (int, error) { s.enter(); return len(p), nil }
 func (s *exclSink) Sync() error                 { s.enter(); return nil }
 
+// exclView is a second handle on one exclSink: several members of a multi-syncer that all end in
+// the same unsynchronised state.
+type exclView struct{ s *exclSink }
+
+func (v exclView) Write(p []byte) (int, error) { v.s.enter(); return len(p), nil }
+func (v exclView) Sync() error                 { v.s.enter(); return nil }
+
 // Child runs the Lock mutual-exclusion workload (race build).
 func Child(r *ev.Run, args []string) {
 	runs := r.N(40, 600)
@@ -405,9 +426,21 @@ func Child(r *ev.Run, args []string) {
 		g := rng.For(r.Seed, "c13/lock", i)
 		s := &exclSink{}
 		var ws zapcore.WriteSyncer = zapcore.Lock(s)
-		if g.P(1, 3) {
+		mult := 1 // how many times one call reaches the (shared) sink
+		topo := "Lock(sink)"
+		switch g.Intn(5) {
+		case 0:
 			ws = zap.CombineWriteSyncers(s, zapcore.AddSync(io.Discard))
+			topo = "CombineWriteSyncers(sink, discard)"
+		case 1:
+			// the members are locked themselves: the outer Lock must still make the fan-out as a whole exclusive
+			ws = zapcore.Lock(zapcore.NewMultiWriteSyncer(zapcore.Lock(exclView{s}), zapcore.Lock(exclView{s})))
+			mult, topo = 2, "Lock(multi(Lock(view), Lock(view)))"
+		case 2:
+			ws = zap.CombineWriteSyncers(zapcore.Lock(exclView{s}), zapcore.Lock(exclView{s}), exclView{s})
+			mult, topo = 3, "CombineWriteSyncers(Lock(view), Lock(view), view)"
 		}
+		r.SetAdd("lock_topologies", topo)
 		ng := g.Range(2, 16)
 		per := g.Range(20, 200)
 		var wg sync.WaitGroup
@@ -435,10 +468,10 @@ func Child(r *ev.Run, args []string) {
 		r.Distinct(fmt.Sprintf("lock|%d|%d|%d", i, ng, per))
 		r.Count("lock_ops", int64(ng*per))
 		if s.maxSeen > 1 {
-			r.Violate(ev.Violation{Case: fmt.Sprintf("c13/lock/%d", i), Class: "lock-overlap", Msg: fmt.Sprintf("Write/Sync overlapped inside Lock: %d calls in flight at once", s.maxSeen)})
+			r.Violate(ev.Violation{Case: fmt.Sprintf("c13/lock/%d", i), Class: "lock-overlap", Msg: fmt.Sprintf("%s: Write/Sync overlapped inside Lock: %d calls in flight at once", topo, s.maxSeen)})
 		}
-		if s.ops != ng*per*50 {
-			r.Violate(ev.Violation{Case: fmt.Sprintf("c13/lock/%d", i), Class: "lock-overlap", Msg: fmt.Sprintf("lost updates inside Lock: %d of %d", s.ops, ng*per*50)})
+		if s.ops != ng*per*50*mult {
+			r.Violate(ev.Violation{Case: fmt.Sprintf("c13/lock/%d", i), Class: "lock-overlap", Msg: fmt.Sprintf("%s: %d of %d sink operations took effect (overlapping calls lost updates, or a Write/Sync did not reach the sink)", topo, s.ops, ng*per*50*mult)})
 		}
 	}
 }
